@@ -723,6 +723,12 @@ class FnTranslator:
                 for y in x[1:]:
                     walk(y)
         walk(body)
+        for n_ in names:
+            if n_ in getattr(self, "mut_params_state", ()) and n_ not in muts:
+                muts.append(n_)                 # the function's own `&mut` parameter used inside the closure
+        lo = "(EConst (VNat 0))"
+        if src[0] == "mcall" and S(src[2]) == "skip" and len(src) == 4 and src[3][0] == "int":
+            lo, src = "(EConst (VNat %d))" % int(src[3][1]), src[1]        # `.skip(N)`: the loop starts at element N
         captured = [n for n in names if n not in local and n in self.scope_names and not n[:1].isupper()]
         for m_ in muts:
             if m_ not in captured:
@@ -747,14 +753,14 @@ class FnTranslator:
         pat = "(PCon \"()\" %s)" % clist(["PVar \"fmc_r%d\"" % n] + ["PVar %s" % cs("fmc_st_" + m_) for m_ in muts])
         upd = "; ".join("SExpr (EAssign %s [] (EVar %s))" % (cs(m_), cs("fmc_st_" + m_)) for m_ in muts)
         return ("(EBlock [SLet (PVar \"fmc_src%d\") %s; SLet (PVar \"fmc_acc%d\") (EArr []); "
-                "SExpr (EFor \"fmc_i%d\" (EConst (VNat 0)) (ECall \"len\" [EVar \"fmc_src%d\"]) "
+                "SExpr (EFor \"fmc_i%d\" LOWER (ECall \"len\" [EVar \"fmc_src%d\"]) "
                 "(EBlock [SLet %s (ECall %s %s); %s"
                 "STail (EIfLet (PCon \"Some\" [PVar \"fmc_x%d\"]) (EVar \"fmc_r%d\") "
                 "(EAssign \"fmc_acc%d\" [] (ECall \"push\" [EVar \"fmc_acc%d\"; EVar \"fmc_x%d\"])) (EConst VUnit))])); "
                 "STail (EVar \"fmc_acc%d\")])" % (
                     n, self.expr(src), n, n, n, pat, cs(fname),
                     clist(["(EIndex (EVar \"fmc_src%d\") (EVar \"fmc_i%d\"))" % (n, n)] + ["(EVar %s)" % cs(c) for c in captured]),
-                    (upd + "; ") if upd else "", n, n, n, n, n, n))
+                    (upd + "; ") if upd else "", n, n, n, n, n, n)).replace("LOWER", lo)
 
     def array_all(self, src, clo):
         """`xs.into_iter().all(|v| COND)`: whether every element satisfies COND (COND has no effects)"""
@@ -896,6 +902,9 @@ def translate_fn(sx, self_type=None, struct_fields=None, qualified=None, setup=N
         if owner is None:
             raise TranslateError("fn %s: const generic %s is not the length of a parameter array" % (name, c))
         cbind.append("(%s, %s)" % (cs(c), cs(owner)))
+    mps0 = [pn for pn, pt in params if pn in getattr(t, "mut_params_state", ()) and "&mut" in pt.replace(" ", "")]
+    if mps0:
+        t.closure_state = list(mps0)       # `?` (on an Option) and `return` carry the updated parameters along
     btext = t.block(body)
     if getattr(t, "mut_self_state", False) and dict(params).get("self") == "&mut self":
         # a method that updates its receiver and returns nothing: the updated receiver is the result
@@ -904,8 +913,6 @@ def translate_fn(sx, self_type=None, struct_fields=None, qualified=None, setup=N
         btext = "(EBlock [SExpr %s; STail (EVar \"self\")])" % btext
     mps = [pn for pn, pt in params if pn in getattr(t, "mut_params_state", ()) and "&mut" in pt.replace(" ", "")]
     if mps:
-        if "EReturn" in btext:
-            raise TranslateError("fn %s: `return` inside a function whose `&mut` parameter is translated by state passing" % name)
         btext = "(EBlock [SLet (PVar \"fn_res\") %s; STail (ECon \"()\" %s)])" % (
             btext, clist(["(EVar \"fn_res\")"] + ["(EVar %s)" % cs(x) for x in mps]))
     if getattr(t, "diag_local", False):
@@ -1365,6 +1372,43 @@ def translate_variant_descs():
     return out
 
 
+def translate_fields():
+    """The fields of a message variant: `MsgField::new` / `emit` / `emit_pub` (types/msg_field.rs) and `process_fields`
+    (parser/mod.rs: the parameters after `self` and the context, in order). The `&mut CheckGenerics` parameter by state
+    passing; the closure of `filter_map` lifted into a function."""
+    def setup(t):
+        t.interior = True
+        t.mut_params_state = {"generics_checker"}
+        t.lift_closures = True
+        t.externals = {"fold_type"}
+        t.state_methods = {"visit_type": "extern::visit_type"}
+    saved = dict(FOREIGN)
+    FOREIGN["MsgField::new"] = "call:MsgField::new"
+    FOREIGN["assert_no_self_ctx_attributes"] = "call:extern::assert_no_self_ctx_attributes"
+    try:
+        del LAST_AUX_FNS[:]
+        known = {"extern::visit_type", "extern::fold_type", "extern::assert_no_self_ctx_attributes", "MsgField::new", "push", "len"}
+        out = translate_methods("types/msg_field.rs", {"MsgField": ["new", "emit", "emit_pub"]}, setup=setup,
+                                kv=fetch_ast(os.path.join(common.REPO, "sylvia-derive", "src", "types", "msg_field.rs")), extra_known=known)
+        pf = None
+        for k, v in fetch_ast(os.path.join(common.REPO, "sylvia-derive", "src", "parser", "mod.rs")):
+            if k == "fn":
+                sx = parse_sx(v)
+                if S(sx[1]) == "process_fields":
+                    pf, cl = translate_fn(sx, setup=setup)
+                    bad = cl - BUILTINS - known
+                    if bad:
+                        raise TranslateError("process_fields calls %s" % sorted(bad))
+        if pf is None:
+            raise TranslateError("parser/mod.rs: fn process_fields not found")
+        aux = list(LAST_AUX_FNS)
+        del LAST_AUX_FNS[:]
+        return out + [pf] + aux
+    finally:
+        FOREIGN.clear()
+        FOREIGN.update(saved)
+
+
 def translate_checks():
     """sylvia-derive/src/parser/mod.rs: `assert_new_method_defined` - the constructor `new` a contract needs. The function
     returns nothing; its diagnostics, in order, are the result of the translation."""
@@ -1626,6 +1670,10 @@ def generate():
     except (TranslateError, KeyError, IndexError, ValueError, TypeError, AttributeError) as e:
         vdescfns, _ = [], errors.append("macro logic (method descriptions: parser/variant_descs.rs): %s" % e)
     try:
+        fieldfns = translate_fields()
+    except (TranslateError, KeyError, IndexError, ValueError, TypeError, AttributeError) as e:
+        fieldfns, _ = [], errors.append("macro logic (fields: types/msg_field.rs, parser/mod.rs process_fields): %s" % e)
+    try:
         foldfns = translate_fold()
     except (TranslateError, KeyError, IndexError, ValueError, TypeError, AttributeError) as e:
         foldfns, _ = [], errors.append("macro logic (fold.rs StripInput): %s" % e)
@@ -1705,6 +1753,9 @@ def generate():
         "GenImpVariants.v": gen_file("the descriptions of the methods of an impl block / a trait (parser/variant_descs.rs)", [
             "(* VariantDesc::new, ItemImpl::as_variants, ItemTrait::as_variants *)",
             "Definition variants_fns : program :=", prog(vdescfns)]),
+        "GenImpFields.v": gen_file("the fields of a message variant (types/msg_field.rs, parser/mod.rs process_fields)", [
+            "(* MsgField::new / emit / emit_pub, process_fields and the closure of its filter_map *)",
+            "Definition field_fns : program :=", prog(fieldfns)]),
         "GenImpBridge.v": gen_file("the contract-level message (types/interfaces.rs, types/msg_type.rs, contract/communication/wrapper_msg.rs)", [
             "(* Interfaces::emit_*, MsgType::emit_ctx_dispatch_values, GlueMessage::emit *)",
             "Definition bridge_fns : program :=", prog(bridge)])}
